@@ -39,6 +39,10 @@ def streams(seed, tier):
     # every stack counts for the growth cap: instructions whose net growth comes from one particular stack
     grow = ["( INPUT.READ )", "( INPUT.READ INPUT.READ )", "( 1 2 3 )", "( TRUE FALSE )", "( 1.5 2.5 )", "( A B )", "( INT[1] INT[2] )", "( BOOL[1] BOOL[0] )", "( FLOAT[1.0] FLOAT[2.0] )",
             "( CODE.QUOTE A CODE.QUOTE B )", "( INPUT.READ BOOLVECTOR.DUP BOOLVECTOR.DUP )", "( 1 FOO.BAR 2 INTEGER.+ )"]
+    for cap in (0, 1):
+        for lim in (3, 100):
+            for prog in ([IDX(1, 2), L(Z(1), Z(2))], [IDX(0, 0), IDX(1, 1), L(Z(1), Z(2), Z(3))], [L(IDX(1, 2), Z(1)), L(Z(1), Z(2))]):
+                cases.append(case_run(rng.randrange(2), state(exec=prog, cfg=cfg(lim, cap)), 1, 0))
     for text in grow:
         prog = parse_prog(text, modelled)
         for cap in (0, 1, 2):
